@@ -668,6 +668,12 @@ func (r *FileRestorer) applyDecorations(node ast.Node, name string, decorations 
 		// for newline decorations and also line-comments, add a newline
 		if isLineComment || isNewline {
 			lineOffset := int(r.cursor) - r.base // remember lines are relative to the file base
+			if lineOffset <= r.lines[len(r.lines)-1] {
+				// A newline decoration at the very start of the file would repeat the offset of the
+				// first line, which SetLines rejects. Step over one byte first.
+				r.cursor++
+				lineOffset++
+			}
 			r.lines = append(r.lines, lineOffset)
 			r.cursor++
 
